@@ -360,6 +360,8 @@ func wireCaseSx(data []byte, spec TokenSpec) string {
 
 // ---------- CHAIN ----------
 
+var keySrcCache = map[string]biscuit.PublickKeyByIDProjection{}
+
 func execChain(cs *Sx) (res string) {
 	defer func() {
 		if r := recover(); r != nil {
@@ -400,7 +402,24 @@ func execChain(cs *Sx) (res string) {
 			pk := ed25519.PublicKey(k)
 			dflt = &pk
 		}
-		src = biscuit.WithRootPublicKeys(keys, dflt)
+		// one key source per distinct (map, default) for the whole process: a key source is a
+		// value the application creates once and uses for every request
+		ck := fmt.Sprint(cs.field("keys")) + "|" + fmt.Sprint(cs.field("default"))
+		if kf, ok := cs.field("keys"); ok {
+			ck = ""
+			for _, e := range kf {
+				ck += e.String() + ";"
+			}
+			if df, ok := cs.field("default"); ok && len(df) == 1 {
+				ck += "|" + df[0].Atom
+			}
+		}
+		if cached, ok := keySrcCache[ck]; ok {
+			src = cached
+		} else {
+			src = biscuit.WithRootPublicKeys(keys, dflt)
+			keySrcCache[ck] = src
+		}
 	}
 	_, err = tok.AuthorizerFor(src)
 	if err != nil {
